@@ -355,6 +355,17 @@ class Run:
             self.extra['driver_build_errors'] = lean_errors(log)
             os.environ[f'VERIF_DRIVER_BROKEN_{self.prop.upper()}'] = '1'
         self.proof = check_proofs(self.prop) if need_props else {'ok': True, 'theorems': [], 'errors': [], 'cmd': ''}
+        if need_props and self.tier == 'thorough' and self.proof['ok']:
+            # independent re-check of the compiled theorems by the toolchain's leanchecker
+            try:
+                with lean_lock():
+                    rc, out = _run(['lake', 'env', 'leanchecker', f'Xrfmv.Props.{self.prop}'], timeout=1800)
+                self.extra['leanchecker'] = {'exit': rc, 'tail': out[-300:]}
+                if rc != 0:
+                    self.proof['ok'] = False
+                    self.proof['errors'].append(f'leanchecker rejected Xrfmv.Props.{self.prop}: {out[-300:]}')
+            except Exception as e:  # the tool being unavailable is not a verdict
+                self.extra['leanchecker'] = {'error': f'{type(e).__name__}: {e}'}
         return ok
 
     # ---- verdict -----------------------------------------------------------------------------
